@@ -1,7 +1,7 @@
 (* TypeCheck.v — executable deciders for the hypotheses of the end-to-end theorems, with their soundness:
    [has_tyb] decides [has_ty] (values within the ranges of the format), [admb] decides admissibility of a history.
    They make the hypotheses checkable by computation: in Examples here, and by the harness on every generated history. *)
-Require Import Base Cbor EncoderModel DecoderModel Schema SchemaProofs Timestamp TimestampProofs Block BlockProofs Exporter ExporterProofs E2ESpec BlockRead FileProofs.
+Require Import Base Cbor EncoderModel DecoderModel Schema SchemaProofs Timestamp TimestampProofs Block BlockProofs Exporter ExporterProofs Merge E2ESpec BlockRead FileProofs MergeFile.
 Local Open Scope N_scope.
 
 Lemma bytes_okb bs : forallb (fun b => b <? 256) bs = true -> bytes_ok bs.
@@ -62,4 +62,51 @@ Proof.
   apply andb_true_iff in H. destruct H as [H1 H2]. split; [|split; [|apply IH; exact H2]].
   - destruct o; cbn [adm1 adm1b] in *; auto. lia.
   - destruct o; cbn [adm1_time adm1b] in *; auto; apply good_timeb_sound; exact H1.
+Qed.
+
+(* ---------- deciders for the block invariants and for the hypotheses of the merged-file theorem ---------- *)
+Lemma item_time_okb_sound e tps it : item_time_okb e tps it = true -> item_time_ok e tps it.
+Proof.
+  destruct it as [| | | | |[|[tv|] rest]]; cbn [item_time_okb item_time_ok]; auto. intros H.
+  apply andb_true_iff in H. destruct H as [Hr H]. destruct (ts_of_val tv) as [t|]; [|discriminate].
+  unfold rate_okb, normalisedb, ts_okb, instantz in *. split; [unfold rate_ok; lia|]. exists t. split; [reflexivity|].
+  unfold normalised, ts_ok, instant. lia.
+Qed.
+Lemma forallb_Forall {A} (f : A -> bool) (P : A -> Prop) l : (forall a, f a = true -> P a) -> forallb f l = true -> Forall P l.
+Proof. intros H Hf. rewrite forallb_forall in Hf. apply Forall_forall. intros a Ha. apply H. apply Hf. exact Ha. Qed.
+Lemma time_invb_sound b : time_invb b = true -> time_inv b.
+Proof.
+  unfold time_invb, time_inv. intros H. repeat (apply andb_true_iff in H; destruct H as [H ?]).
+  split; [lia|]. split; [lia|]. split.
+  - intros Hr. assert (rate_okb (tps_of b) = true) as Hb by (unfold rate_okb, rate_ok in *; lia). rewrite Hb in *.
+    unfold normalisedb, ts_okb, instantz, normalised, ts_ok, instant in *. lia.
+  - split; eapply forallb_Forall; eauto; intros a; apply item_time_okb_sound.
+Qed.
+Lemma nodup_valb_sound l : nodup_valb l = true -> NoDup l.
+Proof.
+  induction l as [|k r IH]; cbn [nodup_valb]; intros H; constructor.
+  - apply andb_true_iff in H. destruct H as [H _]. apply negb_true_iff in H. intros Hin.
+    assert (existsb (val_eqb k) r = true); [|congruence]. apply existsb_exists. exists k. split; auto. apply val_eqb_refl.
+  - apply IH. apply andb_true_iff in H. tauto.
+Qed.
+Lemma aec_invb_sound l : aec_invb l = true -> aec_inv l.
+Proof.
+  unfold aec_invb, aec_inv. intros H. apply andb_true_iff in H. destruct H as [H1 H2]. split; [|apply nodup_valb_sound; exact H2].
+  eapply forallb_Forall; [|exact H1]. intros [k c]. cbn [fst]. unfold aec_shapeb, aec_shape.
+  destruct k as [| | | | |[|a [|b0 [|c0 [|d [|[[[|p]| | | | |]|] [|? ?]]]]]]]; try discriminate. intros _. eauto.
+Qed.
+Lemma good_blkb_sound b : good_blkb b = true -> good_blk b.
+Proof. unfold good_blkb, good_blk. intros H. apply andb_true_iff in H. destruct H. split; [apply time_invb_sound|apply aec_invb_sound]; auto. Qed.
+Lemma blk_params_okb_sound ps b : blk_params_okb ps b = true -> blk_params_ok ps b.
+Proof.
+  unfold blk_params_okb, blk_params_ok, bparams_eqb. intros H. apply andb_true_iff in H. destruct H as [H1 H2]. split; [lia|].
+  repeat (apply andb_true_iff in H2; destruct H2 as [H2 ?]).
+  destruct (b_bp b) as [a1 a2 a3 a4 a5 a6], (nth_bp ps (b_bpi b)) as [c1 c2 c3 c4 c5 c6]. cbn in *. f_equal; lia.
+Qed.
+Lemma merge_okb_sound ins : merge_okb ins = true -> merge_ok ins.
+Proof.
+  unfold merge_okb, merge_ok. intros H. apply andb_true_iff in H. destruct H as [H1 H2]. split; [apply (proj1 has_tyb_sound); exact H1|].
+  eapply forallb_Forall; [|exact H2]. intros b Hb Hne. cbv beta in Hb. rewrite Hne in Hb.
+  apply andb_true_iff in Hb. destruct Hb as [Hb G]. apply andb_true_iff in Hb. destruct Hb as [T P].
+  split; [apply (proj1 has_tyb_sound); exact T|]. split; [apply blk_params_okb_sound; exact P|apply good_blkb_sound; exact G].
 Qed.
